@@ -401,6 +401,11 @@ impl Store {
                 if tagname == b"e" {
                     if let Some(id_hex) = tag.next() {
                         if let Ok(id) = Id::read_hex(id_hex) {
+                            // A deletion request does not delete itself
+                            if id == event.id() {
+                                continue;
+                            }
+
                             // Actually remove
                             if let Some(target) = self.get_event_by_id(id)? {
                                 // author must match
